@@ -367,8 +367,11 @@ def run_check(prop, modname, tier, seed):
     os.makedirs(os.path.join(VERIF, 'evidence'), exist_ok=True)
     with open(os.path.join(VERIF, 'evidence', prop + '.json'), 'w') as fh:
         json.dump(ev, fh, indent=1, sort_keys=True, default=str)
+    printed = set()
     for kn, p, c in known_hits:
-        print('KNOWN-FINDING: property=%s %s' % (prop, kn['what']))
+        if kn['what'] not in printed:
+            printed.add(kn['what'])
+            print('KNOWN-FINDING: property=%s %s' % (prop, kn['what']))
     code = 0
     for fl, p, c in reported:
         print('VIOLATION property=%s replay=%s' % (prop, p))
